@@ -1658,7 +1658,32 @@ pub fn subscription_bookkeeping() -> Value {
 				}
 			}
 		}
-		json!({"probe":"subscription_bookkeeping","disagrees":false,"histories_tried":4})
+		// history 5: the connection ends while the handler is busy elsewhere; when the handler THEN asks, its sink reports
+		// closed — is_closed() is true, closed().await completes at once, sends fail
+		{
+			let (tx5, mut rx5) = tokio::sync::mpsc::unbounded_channel::<String>();
+			let gate5 = std::sync::Arc::new(tokio::sync::Notify::new());
+			let mut module5 = RpcModule::new((tx5, gate5.clone()));
+			module5
+				.register_subscription("sub5", "notif5", "unsub5", |_, pending, ctx, _| async move {
+					let sink: SubscriptionSink = pending.accept().await.unwrap();
+					ctx.1.notified().await;     // busy elsewhere until the connection is gone
+					let is_closed = sink.is_closed();
+					let closed_done = tokio::time::timeout(std::time::Duration::from_millis(500), sink.closed()).await.is_ok();
+					let sent = sink.send(raw("\"late\"")).await.is_ok();
+					let _ = ctx.0.send(format!("is_closed={is_closed} closed_completed={closed_done} sent={sent}"));
+				})
+				.unwrap();
+			let sub5 = module5.subscribe_unbounded("sub5", jsonrpsee_core::EmptyServerParams::new()).await.unwrap();
+			drop(sub5);      // the connection (its receiving end) goes away
+			tokio::time::sleep(std::time::Duration::from_millis(30)).await;
+			gate5.notify_one();
+			let rep = tokio::time::timeout(std::time::Duration::from_secs(3), rx5.recv()).await.ok().flatten().unwrap_or_default();
+			if rep != "is_closed=true closed_completed=true sent=false" {
+				return fail("subscription accepted; the connection ends while the handler is busy; afterwards the handler calls is_closed(), closed().await and send()", rep, "is_closed=true closed_completed=true sent=false");
+			}
+		}
+		json!({"probe":"subscription_bookkeeping","disagrees":false,"histories_tried":5})
 	})
 }
 
